@@ -172,6 +172,21 @@ func (env *SpecEnv) eval(e *Expr) *Value {
 		}
 		n := *env
 		n.cur = env.old
+		if env.fr != nil && env.at != nil {
+			// inside a loop invariant: parameters named in old(...) denote their entry values
+			vs := map[string]*Value{}
+			for i, p := range env.fr.fn.Params {
+				if i < len(env.fr.params) {
+					vs[p.Name()] = env.fr.params[i]
+				}
+			}
+			for k, v := range env.vars {
+				vs[k] = v
+			}
+			n.vars = vs
+			n.at = nil
+			n.li = nil
+		}
 		return n.eval(e.Args[0])
 	case "unary":
 		v := env.eval(e.Args[0])
@@ -924,6 +939,21 @@ func (env *SpecEnv) call(e *Expr) *Value {
 		v, ok := env.cur.cells[c]
 		if !ok {
 			return scalar(tBool, False)
+		}
+		return v
+	case "arg":
+		// arg(F, i): the i-th argument of the most recent call of F
+		n := exprTypeName(args[0])
+		if args[0].Op == "str" {
+			n = args[0].Name
+		}
+		c, ok := x.argCells[fmt.Sprintf("%s#%d", n, mustInt(args[1]))]
+		if !ok {
+			specFail("arg(%s, %d): callee never called", n, mustInt(args[1]))
+		}
+		v, ok := env.cur.cells[c]
+		if !ok {
+			specFail("arg(%s): callee not called on any path to this point", n)
 		}
 		return v
 	case "ret":
